@@ -189,6 +189,24 @@ where
     out_cells(guarded(AssertUnwindSafe(|| <O as Vec1Create<T>>::linspace(start, end, n))), cell)
 }
 
+/// a source whose `size_hint` is whatever the test says: (lo, Some(hi)) independent of what it yields.
+/// Safe code may build such an iterator; the plain collectors (std `collect`, `Array1::from_iter`) must
+/// ignore the misreport, the default bodies of own.rs likewise.
+struct Liar<I> {
+    inner: I,
+    lo: usize,
+    hi: usize,
+}
+impl<I: Iterator> Iterator for Liar<I> {
+    type Item = I::Item;
+    fn next(&mut self) -> Option<I::Item> {
+        self.inner.next()
+    }
+    fn size_hint(&self) -> (usize, Option<usize>) {
+        (self.lo, Some(self.hi))
+    }
+}
+
 /// runs `$body` once per output container of element type `$T`; `$O` is the container type,
 /// `$name` its tag, `$raw` whether its trusted collectors are the raw-pointer ones
 macro_rules! for_containers {
@@ -898,6 +916,93 @@ fn main() {
                 srt!("deque_contig", VecDeque<i64>, wrapped_deque(&xs, 0), |v: VecDeque<i64>| v.items());
                 srt!("deque_wrapped", VecDeque<i64>, wrapped_deque(&xs, len / 2 + 1), |v: VecDeque<i64>| v.items());
             }
+        }
+    }
+    // ============================================================ misreporting sources (audit)
+    // size hints wrong in either direction, through every collector that does not trust them:
+    // plain, optional, fallible on all containers; trusted / fallible-trusted on the default backend
+    let liarlen = if thorough { 6 } else { 4 };
+    for len in 0..=liarlen {
+        let items = items_of(len);
+        let zl = coq_zlist(&items);
+        let nt = if len == 0 { " nt=0" } else { "" };
+        for (lo, hi) in [(0usize, 0usize), (0, len / 2), (0, len + 3), (len + 2, len + 5), (len / 2, len / 2), (len + 1, len + 1)] {
+            if lo == len && hi == len { continue }
+            let dir = if hi < len { "under" } else if lo > len { "over_lo" } else if hi > len { "over" } else { "loose" };
+            for_containers!(i64, |O, name, raw| {
+                let _ = raw;
+                em.case("exact", &format!("fn=collect_vec1 out={} src=liar dir={} len={}{}", name, dir, len, nt),
+                    &format!("fn=collect_vec1 out={} src=liar({},{}) items={:?}", name, lo, hi, items),
+                    || format!("(run_collect_plain_hint {} {})", coq_nat(hi), zl),
+                    || out_cells(guarded(|| Liar { inner: items.clone().into_iter(), lo, hi }.collect_vec1::<O>()), |x: i64| Cell::Int(x as i128)));
+                em.case("exact", &format!("fn=collect_from_iter out={} src=liar dir={} len={}{}", name, dir, len, nt),
+                    &format!("fn=collect_from_iter out={} src=liar({},{}) items={:?}", name, lo, hi, items),
+                    || format!("(run_collect_plain_hint {} {})", coq_nat(hi), zl),
+                    || out_cells(guarded(|| <O as Vec1<i64>>::collect_from_iter(Liar { inner: items.clone().into_iter(), lo, hi })), |x: i64| Cell::Int(x as i128)));
+            });
+            // optional -> null-encoded (f64: None becomes NaN)
+            let fo: Vec<Option<f64>> = (0..len).map(|i| if i % 2 == 1 { None } else { Some(i as f64 * 0.5 - 1.0) }).collect();
+            let fterm = coq_list(&fo, |o| coq_opt(o, |x| coq_f64(*x)));
+            for_containers!(f64, |O, name, raw| {
+                let _ = raw;
+                em.case("exact", &format!("fn=collect_vec1_opt ty=f64 out={} src=liar dir={} len={}{}", name, dir, len, nt),
+                    &format!("fn=collect_vec1_opt ty=f64 out={} src=liar({},{}) items={:?}", name, lo, hi, fo),
+                    || format!("(run_collect_opt_f {})", fterm),
+                    || out_cells(guarded(|| Liar { inner: fo.clone().into_iter(), lo, hi }.collect_vec1_opt::<O>()), |x: f64| Cell::F(x)));
+            });
+            // fallible: an error at every position (and none)
+            for epos in 0..=len {
+                let pat: Vec<Result<i64, i64>> = (0..len).map(|i| if i == epos { Err(100 + i as i64) } else { Ok(10 * i as i64 + 3) }).collect();
+                let term_items = coq_list(&pat, |x| match x { Ok(v) => format!("inl {}", coq_z(*v as i128)), Err(k) => format!("inr {}", coq_z(*k as i128)) });
+                let first = if epos == len { "none".to_string() } else { format!("{}", epos) };
+                let run_cells = |r: Result<TResult<Vec<i64>>, u8>, pulls: usize| -> Vec<Cell> {
+                    match r {
+                        Err(k) => vec![Cell::Panic(k)],
+                        Ok(Err(TError::IdxOut { idx, .. })) => vec![Cell::Err, Cell::Int(idx as i128), Cell::Int(pulls as i128)],
+                        Ok(Err(_)) => vec![Cell::Err, Cell::Int(-1), Cell::Int(pulls as i128)],
+                        Ok(Ok(o)) => {
+                            let mut c: Vec<Cell> = o.into_iter().map(|x| Cell::Int(x as i128)).collect();
+                            c.push(Cell::Sep);
+                            c.push(Cell::Int(pulls as i128));
+                            c
+                        }
+                    }
+                };
+                for_containers!(i64, |O, name, raw| {
+                    em.case("exact", &format!("fn=try_collect_vec1 out={} src=liar dir={} len={} first={}{}", name, dir, len, first, nt),
+                        &format!("fn=try_collect_vec1 out={} src=liar({},{}) items={:?}", name, lo, hi, pat),
+                        || format!("(run_try_collect_hint {} {})", coq_nat(hi), term_items), || {
+                        let pulls = Rc::new(StdCell::new(0usize));
+                        let p2 = pulls.clone();
+                        let it = Liar { inner: Iterator::map(pat.clone().into_iter(), move |x| -> TResult<i64> {
+                            p2.set(p2.get() + 1);
+                            match x { Ok(v) => Ok(v), Err(k) => Err(TError::IdxOut { idx: k as usize, len: 0 }) }
+                        }), lo, hi };
+                        let r = guarded(AssertUnwindSafe(|| it.try_collect_vec1::<O>().map(|o| o.items())));
+                        run_cells(r, pulls.get())
+                    });
+                    if !raw {
+                        // the default bodies never read the announcement: a lying TrustIter is safe here
+                        em.case("exact", &format!("fn=try_collect_trusted_vec1 out={} src=wronglen dir={} len={} first={} scope=outside{}", name, dir, len, first, nt),
+                            &format!("fn=try_collect_trusted_vec1 out={} items={:?} announced={}", name, pat, hi),
+                            || format!("(run_try_collect_trusted_hint false {} {})", coq_nat(hi), term_items), || {
+                            let pulls = Rc::new(StdCell::new(0usize));
+                            let p2 = pulls.clone();
+                            let it = Iterator::map(pat.clone().into_iter(), move |x| -> TResult<i64> {
+                                p2.set(p2.get() + 1);
+                                match x { Ok(v) => Ok(v), Err(k) => Err(TError::IdxOut { idx: k as usize, len: 0 }) }
+                            }).to_trust(hi);
+                            let r = guarded(AssertUnwindSafe(|| it.try_collect_trusted_vec1::<O>().map(|o| o.items())));
+                            run_cells(r, pulls.get())
+                        });
+                    }
+                });
+            }
+            // trusted collection of a lying TrustIter on the default backend
+            em.case("exact", &format!("fn=collect_trusted_vec1 out=dflt src=wronglen dir={} len={} scope=outside{}", dir, len, nt),
+                &format!("fn=collect_trusted_vec1 out=dflt items={:?} announced={}", items, hi),
+                || format!("(run_collect_trusted_hint false {} {})", coq_nat(hi), zl),
+                || out_cells(guarded(|| items.clone().into_iter().to_trust(hi).collect_trusted_vec1::<Dflt<i64>>()), |x: i64| Cell::Int(x as i128)));
         }
     }
     em.finish();
